@@ -316,6 +316,21 @@ fn spaces(thorough: bool) -> Vec<(String, u64, String, Box<dyn Fn(u64, &mut Acc)
         }
         case_parse(kind, "1", &pat, acc);
     })));
+    // (i) numerals at the edges of every integer width, in every pair of numeric fields
+    let fields: Vec<&'static str> = vec!["y", "yyy", "yyyy", "yyyyy", "yyyyyyyyyy", "yyyyyyyyyyy", "M", "MM", "d", "dd", "D", "DDD", "H", "HH", "h", "K", "k", "m", "s", "n", "nnn", "nnnn", "nnnnn", "w", "q", "e"];
+    let numerals: Vec<&'static str> = vec![
+        "0", "1", "-1", "-0", "00", "007", "12", "13", "24", "31", "32", "59", "60", "99", "365", "366", "367", "999", "5879611", "5879612", "-5879611", "-5879612", "2147483647", "2147483648", "-2147483647", "-2147483648",
+        "-2147483649", "4294967295", "4294967296", "9223372036854775807", "9223372036854775808", "-9223372036854775808", "18446744073709551615", "18446744073709551616", "99999999999999999999999999999999999999999",
+    ];
+    let (nfld, nnum) = (fields.len() as u64, numerals.len() as u64);
+    v.push((format!("(i) every ordered pair of {} numeric fields x every pair of {} edge numerals x 3 parse functions", nfld, nnum), nfld * nfld * nnum * nnum * 3, "values at and next to the limits of i32 / u32 / i64 / u64 and of each calendar field, in the year and in every other field at once".into(), Box::new(move |i, acc| {
+        let kind = (i % 3) as u8;
+        let r = i / 3;
+        let (a, b) = (numerals[(r % nnum) as usize], numerals[(r / nnum % nnum) as usize]);
+        let r = r / (nnum * nnum);
+        let (fa, fb) = (fields[(r % nfld) as usize], fields[(r / nfld) as usize]);
+        case_parse(kind, &format!("{} {}", a, b), &format!("{} {}", fa, fb), acc);
+    })));
     // (e) cron
     let nc = count_strings(11, if thorough { 5 } else { 4 });
     let clen = if thorough { 5 } else { 4 };
